@@ -696,9 +696,9 @@ Lemma model_holds_C19 : forall base tree q,
   pre_q base tree q = true -> agree_q base tree q = true ->
   outcome_in_vocabulary (q_kind q) (q_res q) ->
   (q_kind q = QInit -> q_changed q = false) ->
-  holds_q base tree q = true.
+  holds_core base tree q = true.
 Proof.
-  intros base tree q Hpre Hag Hvoc Hinit. unfold holds_q. rewrite Hpre.
+  intros base tree q Hpre Hag Hvoc Hinit. unfold holds_core. rewrite Hpre.
   set (root := mkroot base tree) in *.
   (* unpack the precondition *)
   unfold pre_q in Hpre. fold root in Hpre.
@@ -821,9 +821,9 @@ Definition job_vocabulary (r : qres) : Prop :=
    path does not exist or contains no id-like component / no project. *)
 Lemma model_holds_job : forall base tree q,
   q_kind q = QJob -> pre_q base tree q = true -> agree_q base tree q = true ->
-  job_vocabulary (q_res q) -> holds_q base tree q = true.
+  job_vocabulary (q_res q) -> holds_core base tree q = true.
 Proof.
-  intros base tree q K Hpre Hag Hvoc. unfold holds_q. rewrite Hpre.
+  intros base tree q K Hpre Hag Hvoc. unfold holds_core. rewrite Hpre.
   set (root := mkroot base tree) in *.
   unfold pre_q in Hpre. fold root in Hpre. rewrite K in Hpre.
   apply andb_true_iff in Hpre. destruct Hpre as [Hpre JL].
@@ -904,11 +904,25 @@ Qed.
 
 Lemma model_holds_get_project : forall base tree q s,
   q_kind q = QProject s -> pre_q base tree q = true -> agree_q base tree q = true ->
-  outcome_in_vocabulary (q_kind q) (q_res q) -> holds_q base tree q = true.
+  outcome_in_vocabulary (q_kind q) (q_res q) -> holds_core base tree q = true.
 Proof. intros base tree q s K P A V. apply model_holds_C19; auto. rewrite K. discriminate. Qed.
 
 Lemma model_holds_init : forall base tree q,
   q_kind q = QInit -> pre_q base tree q = true -> agree_q base tree q = true ->
   outcome_in_vocabulary (q_kind q) (q_res q) -> q_changed q = false ->
-  holds_q base tree q = true.
+  holds_core base tree q = true.
 Proof. intros base tree q K P A V C. apply model_holds_C19; auto. Qed.
+
+(* the "nothing is reset" clause of the oracle on a call that changed nothing *)
+Lemma change_ok_unchanged : forall base tree q, q_changed q = false -> change_ok base tree q = true.
+Proof.
+  intros base tree q H. unfold change_ok, unchanged_or_ws. rewrite H.
+  destruct (q_kind q); destruct (q_res q); reflexivity.
+Qed.
+
+Lemma model_holds_full : forall base tree q,
+  holds_core base tree q = true -> q_changed q = false -> holds_q base tree q = true.
+Proof.
+  intros base tree q H C. unfold holds_q. rewrite H, (change_ok_unchanged base tree q C).
+  destruct (pre_q base tree q); [destruct (expected (mkroot base tree) q)|]; reflexivity.
+Qed.
